@@ -45,13 +45,30 @@ var streamDescs = []*grpc.StreamDesc{
 
 // Op is one step of a client or handler program.
 type Op struct {
-	K  byte              `json:"k"`
+	K  OpK               `json:"k"`
 	N  int               `json:"n,omitempty"`
 	D  time.Duration     `json:"d,omitempty"`
 	MD map[string][]string `json:"md,omitempty"`
 	// Fork: two sub-programs run as two tasks on the stream (K == 'f')
 	A []Op `json:"a,omitempty"`
 	B []Op `json:"b,omitempty"`
+}
+
+// OpK is an op code, written as a one-letter string in JSON.
+type OpK byte
+
+func (k OpK) MarshalJSON() ([]byte, error) { return []byte(`"` + string(rune(k)) + `"`), nil }
+func (k *OpK) UnmarshalJSON(b []byte) error {
+	if len(b) >= 3 && b[0] == '"' {
+		*k = OpK(b[1])
+		return nil
+	}
+	var n int
+	if _, err := fmt.Sscanf(string(b), "%d", &n); err != nil {
+		return err
+	}
+	*k = OpK(n)
+	return nil
 }
 
 // StatusSpec is what a handler returns.
@@ -80,6 +97,8 @@ type CallSpec struct {
 	HProg   []Op                `json:"hprog,omitempty"`
 	HStatus *StatusSpec         `json:"hstatus,omitempty"`
 	NoTag   bool                `json:"notag,omitempty"` // do not attach x-sim-call (handler found by payload tag)
+	Early   bool                `json:"early,omitempty"` // handler returns before EOF after consuming EarlyK messages
+	EarlyK  int                 `json:"earlyk,omitempty"`
 }
 
 // CallRec is everything both sides observed about one call.
@@ -629,6 +648,10 @@ func (s *Sim) cprog(r *CallRec, st grpc.ClientStream, prog []Op, suffix string) 
 		case 'z':
 			e.Pt("c.sleep")
 			time.Sleep(op.D)
+		case 'w':
+			e.Pt("c.wait")
+			<-r.Ctx.Done()
+			e.Log("c.ctxdone", "", id, "")
 		case 'f':
 			done := make(chan struct{})
 			name := fmt.Sprintf("call%d.fork%s", id, suffix)
